@@ -248,6 +248,18 @@ def main(argv):
 
     # ---- verdicts --------------------------------------------------------
     cond_report = []
+    # a shard whose precondition is never met is an empty cell of the
+    # partition of the bound (e.g. a shard key that does not take every
+    # residue in this tier): it carries no obligation.  Vacuity of the whole
+    # condition is excluded separately - by its reachability twin and by the
+    # requirement that at least one shard of the condition is non-empty.
+    nonempty = {}
+    for r in results:
+        t = r["task"]
+        if not t["twin"]:
+            nonempty.setdefault(t["fn"], 0)
+            if r.get("status") != "PRE_UNSAT":
+                nonempty[t["fn"]] += 1
     obligations = discharged = inconclusive = 0
     states = transitions = 0
     solver_time = 0.0
@@ -329,6 +341,10 @@ def main(argv):
             if t["kind"] != "bughunt":
                 lines.append("INCONCLUSIVE property=%s condition=%s shard=%s (%s)"
                              % (prop, t["fn"], entry["shard"], status))
+        elif status == "PRE_UNSAT" and t["nshards"] > 1 and nonempty.get(t["fn"], 0) > 0:
+            obligations -= 1
+            entry["verdict"] = "EMPTY_SHARD"
+            entry["note"] = "no input of the bound falls into this shard"
         elif status == "PRE_UNSAT":
             harness_errors.append("%s shard %s: precondition never met" % (
                 t["fn"], entry["shard"]))
